@@ -181,14 +181,19 @@ def helper_selfcheck(ctx, results, kept=None):
 # ---- independent oracles (pointwise definitions, plain loops) ---------------
 
 def _pt(fun, arrs, trail, oshape):
-    out = np.empty(tuple(oshape) + tuple(trail))
+    out = np.empty(tuple(oshape) + tuple(trail), dtype=complex if any(np.iscomplexobj(a) for a in arrs) else float)
     for t in np.ndindex(*trail):
         out[(Ellipsis,) + t] = fun(*[a[(Ellipsis,) + t] for a in arrs])
     return out
 
 
+def _sc(z):
+    """scalar of the field the inputs live in (the definitions are algebraic: no conjugation)"""
+    return complex(z) if np.iscomplexobj(z) else float(z)
+
+
 def o_det(A):
-    return float(np.linalg.det(A))
+    return _sc(np.linalg.det(A))
 
 
 def o_inv(A):
@@ -196,17 +201,17 @@ def o_inv(A):
 
 
 def o_dot(u, v):
-    return sum(float(u[i]) * float(v[i]) for i in range(len(u)))
+    return sum(_sc(u[i]) * _sc(v[i]) for i in range(len(u)))
 
 
 def o_ddot(u, v):
     d = u.shape[0]
-    return sum(float(u[i, j]) * float(v[i, j]) for i in range(d) for j in range(d))
+    return sum(_sc(u[i, j]) * _sc(v[i, j]) for i in range(d) for j in range(d))
 
 
 def o_dddot(u, v):
     d = u.shape[0]
-    return sum(float(u[i, j, k]) * float(v[i, j, k]) for i in range(d) for j in range(d) for k in range(d))
+    return sum(_sc(u[i, j, k]) * _sc(v[i, j, k]) for i in range(d) for j in range(d) for k in range(d))
 
 
 def o_prod(u, v):
@@ -228,7 +233,7 @@ def o_mulm(A, B):
 
 
 def o_trace(T):
-    return sum(float(T[i, i]) for i in range(T.shape[0]))
+    return sum(_sc(T[i, i]) for i in range(T.shape[0]))
 
 
 def o_transpose(T):
@@ -253,18 +258,23 @@ def o_curl(G):
     if G.shape == (2, 2):
         return G[1, 0] - G[0, 1]
     # levi-civita
-    out = np.zeros(3)
+    out = np.zeros(3, dtype=G.dtype)
     for i, j, k, s in ((0, 1, 2, 1), (1, 2, 0, 1), (2, 0, 1, 1), (0, 2, 1, -1), (2, 1, 0, -1), (1, 0, 2, -1)):
         out[i] += s * G[k, j]          # (curl u)_i = eps_ijk d_j u_k,  G[k, j] = d u_k / d x_j
     return out
 
 
+COMPLEX_ROUND = {"on": False}
+
+
 def rand_tensor(rng, shape, view):
     a = np.array([rng.gauss(0, 1) for _ in range(int(np.prod(shape)) if shape else 1)]).reshape(shape)
+    if COMPLEX_ROUND["on"]:
+        a = a + 1j * np.array([rng.gauss(0, 1) for _ in range(int(np.prod(shape)) if shape else 1)]).reshape(shape)
     if view == "fortran":
         a = np.asfortranarray(a)
     elif view == "strided" and len(shape) >= 1:
-        big = np.zeros(tuple(shape[:-1]) + (2 * shape[-1],))
+        big = np.zeros(tuple(shape[:-1]) + (2 * shape[-1],), dtype=a.dtype)
         big[..., ::2] = a
         a = big[..., ::2]
     return a
@@ -279,7 +289,9 @@ def helper_search(ctx):
     from skfem.autodiff import JaxDiscreteField
 
     def close(a, b, tol):
-        a, b = np.asarray(a, dtype=float), np.asarray(b, dtype=float)
+        a, b = np.asarray(a), np.asarray(b)
+        a = a.astype(complex if (np.iscomplexobj(a) or np.iscomplexobj(b)) else float)
+        b = b.astype(a.dtype)
         if a.shape != b.shape:
             return False
         if a.size == 0:
@@ -298,6 +310,10 @@ def helper_search(ctx):
     trails = [(), (3,), (2, 3), (1, 1), (4, 1)]
     n_rounds = ctx.scale(4, 30)
     for rnd in range(n_rounds):
+        # every fourth round with COMPLEX entries (the definitions are algebraic: they hold over the complex numbers)
+        COMPLEX_ROUND["on"] = (rnd % 4 == 3)
+        if COMPLEX_ROUND["on"]:
+            ctx.count("helper-round:complex")
         for d in (2, 3):
             for trail in trails:
                 view = ctx.rng.choice(["c", "c", "fortran", "strided"])
@@ -358,7 +374,7 @@ def helper_search(ctx):
                 for variant, mod in (("np", NH), ("jax", JH)):
                     try:
                         got = np.asarray(mod.eye(jnp.asarray(w0) if variant == "jax" else w0, d))
-                        want = np.zeros((d, d) + trail)
+                        want = np.zeros((d, d) + trail, dtype=np.asarray(w0).dtype)
                         for i in range(d):
                             want[i, i] = w0
                         report("eye", variant, dict(inp, w=w0.tolist()), got, want, 1e-15)
@@ -1643,6 +1659,7 @@ def run(ctx):
         helper_search(ctx)
     except Exception as ex:
         ctx.violation("helper search raised " + exc_kind(ex), {"err": repr(ex)}, {"what": "helper-raise"})
+    COMPLEX_ROUND["on"] = False
     log(f"[C20] helper search done at {ctx.elapsed():.1f}s")
     if results or kept_info:
         helper_selfcheck(ctx, results, kept_info)
